@@ -81,7 +81,7 @@ func (e *engine) ids() [][]byte {
 }
 
 func (e *engine) runC32() {
-	e.rep.Rule = "session IDs: all ordered pairs of realistic and adversarial peer IDs (prefix pairs, high bytes) vs BLAKE3 of the model preimage; FindMatchingHashes on sorted random hash lists with planted overlaps, duplicates, empties, plus aliasing probe; SortHashes vs model; distinct = distinct op line"
+	e.rep.Rule = "session IDs: all ordered pairs of realistic and adversarial peer IDs (prefix pairs, high bytes) vs BLAKE3 of the model preimage; FindMatchingHashes on sorted random hash lists with planted overlaps, duplicates, empties, plus aliasing probe; skewed pairs (one list 9x..200x longer, short side 2..8) whose short-side entries are adjacent neighbours (predecessor / successor / next entry) of long-list entries, shared and non-shared interleaved, random and dense-lattice layouts, both argument orders; SortHashes vs model; distinct = distinct op line"
 	e.rep.Require("session", "find.nonempty", "find.empty", "sort")
 	ids := e.ids()
 	for i := range ids {
@@ -143,6 +143,7 @@ func (e *engine) runC32() {
 		e.findCase(l, r, "")
 	}
 	e.longLists()
+	e.skewedLists()
 }
 
 // findCase: SortHashes and FindMatchingHashes on one pair of lists, against the model and against
@@ -340,6 +341,134 @@ func (e *engine) longLists() {
 			r = append(r, append([]byte(nil), sl[0]...)) // duplicate of a common entry
 		}
 		e.findCase(l, r, class)
+	}
+}
+
+// skewedLists: one list 9x..200x longer than the other (short side 2..8 entries) — the shape where a
+// "probe the short side into the long side" fast path (binary search / galloping over the remaining
+// tail) would run. The short side is built from ADJACENT NEIGHBOURS of long-list entries: a shared
+// entry, its numeric predecessor / successor (NOT shared, sorting directly before / after it), and
+// the next long-list entry (shared), interleaved — so that a probe which consumes the insertion
+// point after a miss, or restarts one past / one before the hit, loses or invents a match. Two
+// layouts: random 32-byte entries with +-1 neighbours, and a dense lattice (long = even numbers,
+// short = a run of consecutive integers). Both argument orders. Monitor (findCase): exactly the
+// map-based set intersection, in order, not aliasing.
+func (e *engine) skewedLists() {
+	e.rep.Require("find.skewed", "sort.skewed", "find.skewed.lattice")
+	bump := func(b []byte, d int) []byte { // big-endian +1 / -1 (wrapping)
+		o := append([]byte(nil), b...)
+		for k := len(o) - 1; k >= 0; k-- {
+			if d > 0 {
+				o[k]++
+				if o[k] != 0 {
+					break
+				}
+			} else {
+				o[k]--
+				if o[k] != 0xff {
+					break
+				}
+			}
+		}
+		return o
+	}
+	ratios := []int{9, 10, 12, 16, 17, 25, 33, 50, 64, 100, 128, 200}
+	n := 36 * e.a.Scale
+	for i := 0; i < n; i++ {
+		ns := 2 + i%7 // 2..8
+		ratio := ratios[(i/7+i)%len(ratios)]
+		if i%11 == 10 {
+			ratio = 9 + e.rng.Intn(192)
+		}
+		nl := ns*ratio + e.rng.Intn(ns)
+		lattice := i%3 == 2
+		class := ".skewed"
+		var long, short [][]byte
+		if lattice {
+			class = ".skewed.lattice"
+			// long = base + 2k (k < nl), short = a run of consecutive integers base + m .. base + m + ns - 1
+			// (odd ones are not shared); the run starts on an odd or an even number, anywhere incl. the ends
+			width := []int{2, 4, 32}[e.rng.Intn(3)]
+			base := e.rng.Bytes(width)
+			base[width-2], base[width-1] = 0, 0
+			if width > 2 {
+				base[width-3] &= 0x7f
+			}
+			num := func(v int) []byte {
+				o := append([]byte(nil), base...)
+				o[width-1] = byte(v)
+				o[width-2] = byte(v >> 8)
+				if width > 2 {
+					o[width-3] |= byte(v>>16) & 0x7f
+				}
+				return o
+			}
+			for k := 0; k < nl; k++ {
+				long = append(long, num(2*k))
+			}
+			m := []int{0, 1, 2*nl - ns - 1, 2*nl - ns, 2*nl - ns + 1, e.rng.Intn(2 * nl)}[e.rng.Intn(6)]
+			if m < 0 {
+				m = 0
+			}
+			for k := 0; k < ns; k++ {
+				short = append(short, num(m+k))
+			}
+		} else {
+			hl := 32
+			if i%5 == 0 {
+				hl = 3 + e.rng.Intn(3)
+			}
+			for k := 0; k < nl; k++ {
+				long = append(long, e.rng.Bytes(hl))
+			}
+			sort.Slice(long, func(a, b int) bool { return bytes.Compare(long[a], long[b]) < 0 })
+			// walk forward through the long list, emitting neighbours of consecutive entries
+			p := []int{0, 1, nl - ns - 1, e.rng.Intn(nl)}[e.rng.Intn(4)]
+			if p < 0 {
+				p = 0
+			}
+			for len(short) < ns && p < nl {
+				switch e.rng.Intn(5) {
+				case 0: // predecessor (miss) then the entry itself (hit)
+					short = append(short, bump(long[p], -1), append([]byte(nil), long[p]...))
+				case 1: // entry (hit), its successor (miss), the next entry (hit)
+					short = append(short, append([]byte(nil), long[p]...), bump(long[p], +1))
+					if p+1 < nl {
+						short = append(short, append([]byte(nil), long[p+1]...))
+						p++
+					}
+				case 2: // two consecutive hits
+					short = append(short, append([]byte(nil), long[p]...))
+					if p+1 < nl {
+						short = append(short, append([]byte(nil), long[p+1]...))
+						p++
+					}
+				case 3: // two misses around one entry, then the next entry
+					short = append(short, bump(long[p], -1), bump(long[p], +1))
+					if p+1 < nl {
+						short = append(short, append([]byte(nil), long[p+1]...))
+						p++
+					}
+				default: // a far miss
+					short = append(short, e.rng.Bytes(hl))
+				}
+				p += 1 + e.rng.Intn(2)*e.rng.Intn(nl/ns)
+			}
+			if len(short) > ns {
+				short = short[:ns]
+			}
+			for len(short) < 2 {
+				short = append(short, append([]byte(nil), long[nl-1]...), bump(long[nl-1], -1))
+			}
+			if len(long) <= 8*len(short) { // keep the pair skewed (> 8x) whatever was appended
+				short = short[:len(long)/9]
+			}
+		}
+		if i%2 == 0 {
+			e.findCase(short, long, class)
+		} else {
+			e.findCase(long, short, class)
+		}
 	}
 }
 
